@@ -4,6 +4,7 @@ import random
 import jax
 import numpy as onp
 
+from networkx import NetworkXUnfeasible
 from rex.artificial import generate_graphs
 from rex.graph import Graph
 
@@ -39,10 +40,10 @@ def static_job(job):
         try:
             G = Graph(nodes=dict(nodes), supervisor=nodes[cfg["sup"]], graphs_raw=g_raw, supergraph=compiled.MODES[mode], prune=prune,
                       progress_bar=False, **kw)
-        except KeyError as e:
+        except (KeyError, NetworkXUnfeasible) as e:
             # Timings.get_buffer_sizes raises KeyError when a node kind is absent from the supergraph although a present kind has
             # an input from it (all its window entries are -1): compilation of such a graph fails (outside the properties, DESIGN 10.4)
-            out.setdefault("notes", []).append(f"{mode}/{prune}: Graph() raised KeyError {e}")
+            out.setdefault("notes", []).append(f"{mode}/{prune}: Graph() raised {type(e).__name__} {e}")
             continue
         if mode == "mcs":
             S_prev = G.S
@@ -84,8 +85,8 @@ def run_job(job):
         try:
             G = Graph(nodes=dict(nodes), supervisor=nodes[cfg["sup"]], graphs_raw=g_raw, supergraph=compiled.MODES[mode], prune=prune,
                       progress_bar=False, **kw)
-        except KeyError as e:
-            out.setdefault("notes", []).append(f"{mode}/{prune}: Graph() raised KeyError {e} (DESIGN 10.4)")
+        except (KeyError, NetworkXUnfeasible) as e:
+            out.setdefault("notes", []).append(f"{mode}/{prune}: Graph() raised {type(e).__name__} {e} (DESIGN 10.4)")
             continue
         tagm = f"{job.get('id', 'job')}/{mode}/{'prune' if prune else 'noprune'}"
         runner = {True: compiled.CompiledRunner(G, nodes, cfg, jit=True), False: compiled.CompiledRunner(G, nodes, cfg, jit=False)}
@@ -320,8 +321,8 @@ def c10_e2e_job(job):
             g_raw = generate_graphs(nodes, ts_max=job["ts_max"] / probes.GRID, rng=jax.random.PRNGKey(job.get("seed", 0)), num_episodes=1)
             try:
                 G = Graph(nodes=dict(nodes), supervisor=nodes[c_["sup"]], graphs_raw=g_raw, supergraph=compiled.MODES[mode], prune=prune, progress_bar=False)
-            except KeyError as e:
-                out["notes"].append(f"{tag}: Graph() raised KeyError {e} (DESIGN 10.4)")
+            except (KeyError, NetworkXUnfeasible) as e:
+                out["notes"].append(f"{tag}: Graph() raised {type(e).__name__} {e} (DESIGN 10.4)")
                 res = None
                 break
             gs0 = G.init(jax.random.PRNGKey(job.get("seed", 0)))
